@@ -31,7 +31,10 @@ struct SimAlloc
     bool always_move = false;
     bool junk_fill = true;
     bool reuse_lifo = false;
+    bool passthrough = false; // memory comes from the library's own default allocator a_alloc_ (malloc/realloc/free)
     unsigned char junk_seed = 0x5b;
+    void *host_alloc(size_t n) { return passthrough ? a_alloc_(nullptr, n ? n : 1) : malloc(n ? n : 1); }
+    void host_free(void *p) { if (passthrough) { if (a_alloc_(p, 0) != nullptr) error("default-allocator-contract", "a_alloc_(p, 0) did not return NULL"); } else free(p); }
 
     // faults
     int fmode = F_NONE;
@@ -79,10 +82,10 @@ struct SimAlloc
             }
         }
 #ifdef SIM_ASAN
-        if (!base) { base = malloc(size ? size : 1); cap = size; }
+        if (!base) { base = host_alloc(size); cap = size; }
         unsigned char *user = (unsigned char *)base;
 #else
-        if (!base) { base = malloc(size + 2 * GUARD); cap = size; }
+        if (!base) { base = host_alloc(size + 2 * GUARD); cap = size; }
         unsigned char *user = (unsigned char *)base + GUARD;
         memset(base, 0xA5, GUARD);
         memset(user + size, 0xA5, GUARD + (cap - size));
@@ -110,11 +113,11 @@ struct SimAlloc
             return;
         }
         SIM_UNPOISON(user, b.cap);
-        free(b.base);
+        host_free(b.base);
 #else
         memset(user, 0xDD, b.cap);
         if (reuse_lifo && !b.harness && b.cap <= 512) { freelist[b.size].push_back({b.base, b.cap}); return; }
-        free(b.base);
+        host_free(b.base);
 #endif
     }
 
@@ -177,6 +180,22 @@ struct SimAlloc
             if (stats) stats->add("alloc.realloc_inplace");
             return addr;
         }
+#ifdef SIM_ASAN
+        if (passthrough && !always_move && !b.harness)
+        { // let the library's default allocator do a real realloc
+            Block nb = b;
+            SIM_UNPOISON(addr, b.cap);
+            void *n2 = a_alloc_(addr, size);
+            if (!n2) { fprintf(stderr, "simalloc: host realloc failed\n"); abort(); }
+            live.erase(it);
+            if (size > nb.size) fill_junk((unsigned char *)n2 + nb.size, size - nb.size);
+            nb.size = size; nb.cap = size; nb.base = n2; nb.op = cur_op;
+            freed[(uintptr_t)addr] = nb.id; freed.erase((uintptr_t)n2);
+            live[(uintptr_t)n2] = nb;
+            if (stats) stats->add("alloc.realloc_by_default_allocator");
+            return n2;
+        }
+#endif
         size_t const keep = size < b.size ? size : b.size;
         void *n = raw_new(size, false);
         memcpy(n, addr, keep);
@@ -278,13 +297,13 @@ struct SimAlloc
 #ifdef SIM_ASAN
                 SIM_UNPOISON(pr.first, pr.second);
 #endif
-                free(pr.first);
+                host_free(pr.first);
             }
         freelist.clear(); freed.clear();
         next_id = 1; cur_op = -1;
         fmode = F_NONE; fk = 0; req_in_op = req_total = fired_in_op = fired_total = 0;
         err_cls.clear(); err_detail.clear(); last_fired_site.clear();
-        always_move = false; junk_fill = true; reuse_lifo = false;
+        always_move = false; junk_fill = true; reuse_lifo = false; passthrough = false;
         classify = nullptr;
     }
     void raw_delete_final(std::map<uintptr_t, Block>::iterator it)
@@ -294,7 +313,7 @@ struct SimAlloc
         SIM_UNPOISON((void *)it->first, b.cap);
 #endif
         live.erase(it);
-        free(b.base);
+        host_free(b.base);
     }
     // draw a personality from the run's rng
     void personality(Rng &r, unsigned char seedbyte)
